@@ -95,7 +95,7 @@ def _tier(tier):
                      "load_c": (0.5, 3.0, 1000.0), "cycle_c": (7.0, 0.01), "perms": "some", "all_perms_upto": 4},
             "ml": {"k": (5.0,), "subsets": [[250.0, 300.0, 350.0], [250.0, 300.0, 350.0, 400.0]],
                    "reps": (1, 2), "jit": (0, 3), "ro": ("mixed2", "pure1"),
-                   "load_c": (3.0,), "cycle_c": (7.0,), "perms": "few"},
+                   "load_c": (3.0,), "cycle_c": (7.0, 1e-7), "perms": "few"},
             "ml_degenerate": [
                 [{"k": 5.0, "levels": [250.0, 300.0, 350.0, 400.0], "reps": 1, "jit": None, "ro": "mixed2"}, ["load", 3.0]],
                 [{"k": 3.0, "levels": [300.0, 400.0], "reps": 1, "jit": 3, "ro": "mixed2"}, ["cycles", 0.01]]],
@@ -113,7 +113,7 @@ def _tier(tier):
         "ml": {"k": (3.0, 5.0, 9.0), "subsets": [[250.0, 300.0], [250.0, 300.0, 350.0], [300.0, 350.0, 400.0],
                                                  [250.0, 300.0, 350.0, 400.0]],
                "reps": (1, 2), "jit": (0, 3), "ro": ("mixed2", "pure1", "mixedlow"),
-               "load_c": (1000.0,), "cycle_c": (7.0, 0.01), "perms": "reversed"},
+               "load_c": (1000.0,), "cycle_c": (7.0, 0.01, 1e-7), "perms": "reversed"},
         "ml_degenerate": deg,
     }
 
@@ -125,7 +125,7 @@ def bounds(tier):
     out["Elementary/Probit (+ MaxLikeInf on the series whose finite-zone fractures are exactly on a line, scale / reversed / carried-label transformations only)"] = t["fast"]
     out["MaxLikeInf/MaxLikeFull (jittered series with >= 3 finite-zone fractures)"] = t["ml"]
     out["MaxLikeFull on zero-scatter / no-run-out starts (slow: the simplex never converges), (series, transformation)"] = t["ml_degenerate"]
-    out["histories B, A, B in one fresh interpreter (result of B must not change)"] = HISTORIES[:2 if tier == "quick" else len(HISTORIES)]
+    out["histories B, A, B in one fresh interpreter (result of B must not change)"] = HISTORIES[:3 if tier == "quick" else len(HISTORIES)]
     out["histories on one kept FatigueData object (analyzers in sequence, transition moved in between; each result must equal that of fresh objects)"] = SHARED[:SHARED_QUICK if tier == "quick" else len(SHARED)]
     out["extra transformation"] = "duplabels: same rows, non-unique index labels"
     out["tolerances"] = {"Elementary/Probit rtol": RTOL_EXACT, "MaxLike parameter rtol": RTOL_ML, "MaxLike |dlogL|": DLL}
@@ -233,7 +233,7 @@ def shards(tier):
     shard per series and analyzer, simplest first), then Elementary/Probit simplest first."""
     t = _tier(tier)
     out = [("mldeg", tier, [s], xf) for s, xf in t["ml_degenerate"]]
-    out += [("history", tier, [h], None) for h in HISTORIES[:2 if tier == "quick" else len(HISTORIES)]]
+    out += [("history", tier, [h], None) for h in HISTORIES[:3 if tier == "quick" else len(HISTORIES)]]
     out += [("shared", tier, [h], None) for h in SHARED[:SHARED_QUICK if tier == "quick" else len(SHARED)]]
     for s in sorted(_ml_series(t), key=lambda s: len(series_rows(s))):
         out.append(("ml", tier, [s], "MaxLikeFull"))
@@ -260,7 +260,11 @@ _B1 = {"k": 5.0, "levels": [250.0, 300.0, 350.0], "reps": 2, "jit": 3, "ro": "mi
 _B2 = {"k": 5.0, "levels": [250.0, 300.0, 350.0, 400.0], "reps": 1, "jit": 0, "ro": "mixed2"}
 _A1 = {"k": 5.0, "levels": [250.0, 300.0, 350.0], "reps": 2, "jit": 3, "ro": "pure1"}
 _A2 = {"k": 3.0, "levels": [250.0, 300.0, 350.0, 400.0], "reps": 1, "jit": 5, "ro": "above"}
+# _A_TIES: the same design as _B1 without jitter - both specimens of a level break at exactly the same cycle number
+# (ties in the pearl chain), and it has as many finite-zone fractures as _B1
+_A_TIES = {"k": 5.0, "levels": [250.0, 300.0, 350.0], "reps": 2, "jit": None, "ro": "mixed2"}
 HISTORIES = [{"an": "MaxLikeFull", "B": _B1, "A": _A1}, {"an": "MaxLikeInf", "B": _B1, "A": _A1},
+             {"an": "Elementary", "B": _B1, "A": _A_TIES},
              {"an": "MaxLikeFull", "B": _B2, "A": _A2}, {"an": "MaxLikeFull", "B": _B1, "A": _A2},
              {"an": "Probit", "B": _B1, "A": _A1}, {"an": "Elementary", "B": _B2, "A": _A1}]
 
